@@ -8,8 +8,11 @@ RULE = ("libraries built from sequences over a 12-block universe (entries with k
         "DuplicateBlockKeyBlocks) x every sub-permutation of the five block classes (326) x both comment modes; all sequences "
         "up to length 2 (quick) / 3 (thorough) under several configurations, longer ones (<= 5 quick, <= 7 thorough) sampled "
         "for every (order, mode); orders naming failed-block classes or the abstract Block; sorting twice; libraries whose "
-        "keys were edited after insertion. distinct = distinct (sequence, order, mode, times); non-trivial = at least two "
-        "blocks")
+        "keys were edited after insertion; libraries built in code from blocks without line numbers that compare EQUAL "
+        "without being identical (preambles, comments, failed blocks sharing one exception, entries/strings) or hold the very same "
+        "object several times, with different comment runs above the equal blocks (all pairs of runs from a small set x "
+        "equal/same object, plus sampled longer ones), judged by value against the unique stable arrangement. distinct = "
+        "distinct (sequence, order, mode, times); non-trivial = at least two blocks")
 TRUSTED = ["CPython's list.sort is a stable sort (Base/StableSort.v proves the stable sorted permutation unique, so any such "
            "sort computes the model's insertion sort); tuple comparison (int, str) is lexicographic, str by code point",
            "copy.deepcopy returns a structurally equal copy (its contract is C07's subject)"]
@@ -21,6 +24,12 @@ FIVE = [0, 1, 2, 3, 4]            # Entry, String, Preamble, ExplicitComment, Im
 CLASS_NAMES = ["Entry", "String", "Preamble", "ExplicitComment", "ImplicitComment", "ParsingFailedBlock",
                "MiddlewareErrorBlock", "DuplicateBlockKeyBlock", "DuplicateFieldKeyBlock", "Block"]
 DEFAULT_ORDER = [1, 2, 0, 4, 3]
+# "equal" streams: an item is [kind, content, share]; kinds: 0 Entry, 1 String, 2 Preamble, 3 ExplicitComment, 4 ImplicitComment,
+# 5 ParsingFailedBlock (one exception object per content, so equal contents compare equal), 6 DuplicateFieldKeyBlock,
+# 7 MiddlewareErrorBlock (6, 7: equal only when the same object); share=1: reuse the object made earlier for (kind, content)
+EQ_MAIN = [2, 5, 6, 7, 0, 1]
+EQ_RUNS = [(), ((3, 0, 0),), ((4, 1, 0),), ((3, 0, 0), (4, 1, 0)), ((4, 1, 0), (3, 0, 0)), ((3, 0, 0), (3, 0, 0)),
+           ((4, 2, 1), (4, 2, 1))]
 
 
 def subperms(xs):
@@ -79,6 +88,34 @@ def generate(rng, tier):
     for _ in range(n_k):
         seq = rand_seq(rng, maxlen, 2)
         add("tampered", seq, rng.choice(orders), rng.randint(0, 1), tamper=[rng.randrange(len(seq)), rng.choice(["a", "b", "", "B"])])
+    # blocks that compare equal without being identical, or the same object held several times (no line numbers: built in code)
+    def add_eq(stream, items, order, preserve, times=1, line=None):
+        cases.append({"stream": stream, "input": {"items": items, "order": order, "preserve": bool(preserve), "times": times,
+                                                   "line": line}})
+    all_orders = orders + [rng.sample(range(10), rng.randint(1, 6)) for _ in range(40)]
+    fillers = [[], [[0, 0, 0]], [[1, 0, 0]], [[2, 1, 0]], [[0, 0, 0], [3, 2, 0]], [[5, 1, 0]]]
+    for kind in EQ_MAIN:
+        for share in (0, 1):
+            for r1 in EQ_RUNS:
+                for r2 in EQ_RUNS:
+                    for preserve in (1, 0):
+                        ords = [DEFAULT_ORDER, rng.choice(all_orders)] if quick else [DEFAULT_ORDER] + [rng.choice(all_orders) for _ in range(5)]
+                        for order in ords:
+                            items = ([list(x) for x in r1] + [[kind, 0, 0]] + [list(x) for x in rng.choice(fillers)]
+                                     + [list(x) for x in r2] + [[kind, 0, share]]
+                                     + [list(x) for x in rng.choice([[], [], [[3, 0, 0]], [[4, 1, 0], [3, 0, 0]]])])
+                            add_eq("equal-pairs", items, order, preserve, line=rng.choice([None, None, 0]))
+    n_e = 500 if quick else 20000
+    for _ in range(n_e):
+        n = rng.randint(2, maxlen + 1)
+        items = []
+        for _ in range(n):
+            if rng.random() < 0.45:
+                items.append([rng.choice((3, 4)), rng.randint(0, 2), rng.randint(0, 1)])
+            else:
+                items.append([rng.choice([2, 2, 5, 5, 0, 1, 6, 7]), rng.randint(0, 1) if rng.random() < 0.3 else 0, rng.randint(0, 1)])
+        add_eq("equal-sampled", items, rng.choice(all_orders), 1 if rng.random() < 0.7 else 0, times=rng.choice([1, 1, 2]),
+               line=rng.choice([None, None, 0]))
     return cases
 
 
@@ -90,6 +127,15 @@ def shrink(case):
         d = dict(inp)
         d.update(kw)
         out.append({"stream": "shrink", "input": d})
+    if "items" in inp:
+        items, order = inp["items"], inp["order"]
+        for i in range(len(items)):
+            mk(items=items[:i] + items[i + 1:])
+        for i in range(len(order)):
+            mk(order=order[:i] + order[i + 1:])
+        if inp["times"] > 1:
+            mk(times=1)
+        return out
     seq, order = inp["seq"], inp["order"]
     for i in range(len(seq)):
         t = inp["tamper"]
@@ -212,6 +258,109 @@ def check_sort(before, before_enc, out_blocks, order, preserve, tampered):
     return ""
 
 
+def make_equal_blocks(items, line):
+    """Blocks without individual line numbers/raw: equal (kind, content) gives blocks that compare equal; share=1 the same object."""
+    from bibtexparser.model import (Entry, Field, String, Preamble, ExplicitComment, ImplicitComment, ParsingFailedBlock,
+                                    DuplicateFieldKeyBlock, MiddlewareErrorBlock)
+    made, excs, res = {}, {}, []
+    for u, c, share in items:
+        if share and (u, c) in made:
+            res.append(made[(u, c)])
+            continue
+        if u == 0:
+            b = Entry("article", "ab"[c % 2], [Field("t", "v", line)], start_line=line)
+        elif u == 1:
+            b = String("ab"[c % 2], "s", line)
+        elif u == 2:
+            b = Preamble("p%d" % c, line)
+        elif u == 3:
+            b = ExplicitComment("c%d" % c, line)
+        elif u == 4:
+            b = ImplicitComment("c%d" % c, line)
+        elif u == 5:
+            b = ParsingFailedBlock(excs.setdefault(c, Exception("boom")), line, "f%d" % c)
+        elif u == 6:
+            b = DuplicateFieldKeyBlock({"t"}, Entry("misc", "a", [Field("t", "1", line), Field("t", "2", line)], start_line=line))
+        elif u == 7:
+            b = MiddlewareErrorBlock(Entry("misc", "c", [Field("t", "1", line)], start_line=line), excs.setdefault(-1 - c, ValueError("m")))
+        else:
+            raise ValueError(u)
+        made.setdefault((u, c), b)
+        res.append(b)
+    return res
+
+
+def check_sort_by_value(before, before_enc, out_blocks, order, preserve):
+    """Property text on one application when blocks have no identity visible in their value (equal or shared blocks).
+
+    The input blocks are identified by position.  A stable sort of the units by (type rank, key) is unique, so an output
+    that holds exactly the input blocks, ordered and stable, with every comment run still above its own block exists in one
+    arrangement only, up to exchanging blocks of equal value: the output must read, value by value, like that arrangement."""
+    import enc
+    names = [CLASS_NAMES[c] for c in order]
+    out_enc = [json.dumps(enc.enc_block(b)) for b in out_blocks]
+    short = {}
+
+    def nm(e, b=None):
+        if e not in short:
+            short[e] = "%s#%d" % (cname(b)[:8] if b is not None else "?", len(short))
+        return short[e]
+    for e, b in zip(before_enc, before):
+        nm(e, b)
+    show_in = [nm(e) for e in before_enc]
+    show_out = [nm(e, b) for e, b in zip(out_enc, out_blocks)]
+    if sorted(out_enc) != sorted(before_enc):
+        lost = list(before_enc)
+        extra = []
+        for e in out_enc:
+            if e in lost:
+                lost.remove(e)
+            else:
+                extra.append(e)
+        return "blocks lost, duplicated or altered: %r -> %r (lost %r, surplus %r)" % (
+            show_in, show_out, [nm(e) for e in lost], [nm(e) for e in extra])
+    pos_units = units_of(list(range(len(before))), False)
+    if preserve:
+        pos_units, cur = [], []
+        for i, b in enumerate(before):
+            cur.append(i)
+            if not is_comment(b):
+                pos_units.append(cur)
+                cur = []
+        if cur:
+            pos_units.append(cur)
+
+    def sk(u):
+        main = before[u[-1]]
+        c = cname(main)
+        return (names.index(c) if c in names else len(names), key_of(main))
+    arranged = [i for u in sorted(pos_units, key=sk) for i in u]      # sorted() is stable; units listed in original order
+    want = [before_enc[i] for i in arranged]
+    if out_enc == want:
+        return ""
+    if preserve:
+        # say which comment run went astray, if that is what happened: for every value of a non-comment block, the runs
+        # directly above its occurrences (as long as the run it had in the input) must be the same collection
+        for i, b in enumerate(before):
+            if is_comment(b):
+                continue
+            j = i
+            while j > 0 and is_comment(before[j - 1]):
+                j -= 1
+            run = before_enc[j:i]
+            if not run:
+                continue
+            n_in = sum(1 for k in range(len(before)) if before_enc[k] == before_enc[i] and k >= len(run)
+                       and before_enc[k - len(run):k] == run)
+            n_out = sum(1 for k in range(len(out_enc)) if out_enc[k] == before_enc[i] and k >= len(run)
+                        and out_enc[k - len(run):k] == run)
+            if n_out < n_in:
+                return "comment run %r no longer directly above its block %s (input position %d): %r -> %r" % (
+                    [nm(e) for e in run], nm(before_enc[i]), i, show_in, show_out)
+    return "not the stable arrangement by (type rank, key)%s: %r -> %r, expected %r" % (
+        " of blocks with their comment runs" if preserve else "", show_in, show_out, [nm(e) for e in want])
+
+
 def impl(case):
     import enc
     import implutil
@@ -219,8 +368,15 @@ def impl(case):
     from bibtexparser.library import Library
     from bibtexparser.middlewares import SortBlocksByTypeAndKeyMiddleware
     inp = case["input"]
-    seq, order, preserve, times, tamper = inp["seq"], inp["order"], inp["preserve"], inp["times"], inp["tamper"]
-    lib = Library([make_block(u, i) for i, u in enumerate(seq)])
+    by_value = "items" in inp
+    if by_value:
+        order, preserve, times, tamper = inp["order"], inp["preserve"], inp["times"], None
+        given = make_equal_blocks(inp["items"], inp["line"])
+        seq = inp["items"]
+        lib = Library(given)
+    else:
+        seq, order, preserve, times, tamper = inp["seq"], inp["order"], inp["preserve"], inp["times"], inp["tamper"]
+        lib = Library([make_block(u, i) for i, u in enumerate(seq)])
     tampered = False
     if tamper is not None:
         b = lib.blocks[tamper[0]]
@@ -254,7 +410,10 @@ def impl(case):
             complaints.append("the input library was changed")
         if out is cur:
             complaints.append("the input library object was returned")
-        c = check_sort(objs, before_enc, out.blocks, order, preserve, tampered)
+        if by_value:
+            c = check_sort_by_value(objs, before_enc, out.blocks, order, preserve)
+        else:
+            c = check_sort(objs, before_enc, out.blocks, order, preserve, tampered)
         if c:
             complaints.append(("pass %d: " % (t + 1) if times > 1 else "") + c)
         cur = out
@@ -266,7 +425,27 @@ def impl(case):
     rec["tags"].append("order-len=%d" % len(order))
     if any(cname(b) == "DuplicateBlockKeyBlock" for b in lib.blocks):
         rec["tags"].append("has-duplicate-key-block")
-    if seq and seq[-1] in COMMENTS and preserve:
+    if by_value:
+        blocks = lib.blocks
+        encs = [json.dumps(enc.enc_block(b)) for b in blocks]
+        main = [i for i, b in enumerate(blocks) if not is_comment(b)]
+
+        def run_above(i):
+            j = i
+            while j > 0 and is_comment(blocks[j - 1]):
+                j -= 1
+            return encs[j:i]
+        pairs = [(i, j) for i in main for j in main if i < j and blocks[i] == blocks[j]]
+        if any(blocks[i] is not blocks[j] for i, j in pairs):
+            rec["tags"].append("equal-not-identical-blocks")
+        if any(blocks[i] is blocks[j] for i, j in pairs):
+            rec["tags"].append("same-object-twice")
+        if any(run_above(i) != run_above(j) for i, j in pairs):
+            rec["tags"].append("equal-blocks-with-different-comment-runs")
+        if len(set(encs)) < len(encs) and any(is_comment(b) and encs.count(e) > 1 for b, e in zip(blocks, encs)):
+            rec["tags"].append("equal-comments")
+        rec["summary"] = repr([cname(b)[:6] + ":" + str(getattr(b, "key", getattr(b, "value", getattr(b, "comment", "")))) for b in cur.blocks])[:200]
+    elif seq and seq[-1] in COMMENTS and preserve:
         rec["tags"].append("trailing-comment-run")
     if tampered:
         rec["tags"].append("tampered")
